@@ -267,7 +267,7 @@ func (ir *ifdReader) ParseSubSecTime(t Tag) uint16 {
 }
 
 func (ir *ifdReader) parseLensInfo(t Tag) LensInfo {
-	if !t.IsEmbedded() {
+	if !t.IsEmbedded() && (t.IsType(tag.TypeRational) || t.IsType(tag.TypeSignedRational)) {
 		buf, err := ir.readTagValue()
 		if err != nil || len(buf) < 32 {
 			return LensInfo{}
